@@ -283,6 +283,147 @@ theorem C18_replaceArgs_not_flagged (args : List Arg) (n : NewArg) (bad : String
   · simp [hk, C18_replaceArgs_sets args n hd a ha hk, hv]
   · simp [hk]
 
+/-! the same for a specification list of any length (secure-flask-cookie passes three, the lxml parser
+defaults three): names pairwise different -/
+
+theorem getD_mem {α} (d : α) : ∀ (l : List α) (i : Nat), i < l.length → l.getD i d ∈ l
+  | [], i, h => by simp at h
+  | x :: t, 0, _ => by simp
+  | x :: t, i + 1, h => by
+    have := getD_mem d t i (by simpa using h)
+    simp only [List.getD_cons_succ]; exact List.mem_cons_of_mem _ this
+
+theorem mem_eraseIdx_or_eq {α} (d : α) : ∀ (l : List α) (i : Nat) (n : α), n ∈ l → n ∈ l.eraseIdx i ∨ n = l.getD i d
+  | [], _, n, h => by simp at h
+  | x :: t, 0, n, h => by
+    simp only [List.mem_cons] at h
+    rcases h with rfl | h
+    · exact Or.inr (by simp)
+    · exact Or.inl (by simpa using h)
+  | x :: t, i + 1, n, h => by
+    simp only [List.mem_cons] at h
+    rcases h with rfl | h
+    · exact Or.inl (by simp)
+    · rcases mem_eraseIdx_or_eq d t i n h with h' | h'
+      · exact Or.inl (by simp [h'])
+      · exact Or.inr (by simpa using h')
+
+theorem eq_of_name_eq : ∀ (info : List NewArg), (names info).Nodup → ∀ m ∈ info, ∀ n ∈ info, m.name = n.name → m = n := by
+  intro info
+  induction info with
+  | nil => intro _ m hm; simp at hm
+  | cons x t ih =>
+    intro hnd m hm n hn h
+    simp only [names, List.map_cons, List.nodup_cons, List.mem_map, not_exists, not_and] at hnd
+    simp only [List.mem_cons] at hm hn
+    rcases hm with rfl | hm <;> rcases hn with rfl | hn
+    · rfl
+    · exact absurd h.symm (hnd.1 n hn)
+    · exact absurd h (hnd.1 m hm)
+    · exact ih (by simpa [names] using hnd.2) m hm n hn h
+
+/-- where the arguments of the edited call come from -/
+theorem mem_replaceArgs_origin : ∀ (args : List Arg) (info : List NewArg) (a : Arg),
+    a ∈ replaceArgs args info → a ∈ args ∨ ∃ m ∈ info, a = mkKw m.name m.value := by
+  intro args
+  induction args with
+  | nil =>
+    intro info a ha
+    simp only [replaceArgs, List.mem_map, List.mem_filter] at ha
+    obtain ⟨m, ⟨hm, _⟩, rfl⟩ := ha
+    exact Or.inr ⟨m, hm, rfl⟩
+  | cons b t ih =>
+    intro info a ha
+    simp only [replaceArgs] at ha
+    cases hmi : matchIdx b info with
+    | none =>
+      simp only [hmi, List.mem_cons] at ha
+      rcases ha with rfl | ha
+      · exact Or.inl (List.mem_cons_self ..)
+      · rcases ih info a ha with h | h
+        · exact Or.inl (List.mem_cons_of_mem _ h)
+        · exact Or.inr h
+    | some i =>
+      simp only [hmi, List.mem_cons] at ha
+      have hi := matchIdx_some b info i hmi
+      rcases ha with rfl | ha
+      · refine Or.inr ⟨info.getD i ⟨"", "", false⟩, ?_, rfl⟩
+        exact getD_mem _ info i hi.1
+      · rcases ih _ a ha with h | ⟨m, hm, rfl⟩
+        · exact Or.inl (List.mem_cons_of_mem _ h)
+        · exact Or.inr ⟨m, List.mem_of_mem_eraseIdx hm, rfl⟩
+
+theorem kwNodup_tail {b : Arg} {t : List Arg} (hd : kwNodup (b :: t)) : kwNodup t := by
+  unfold kwNodup at hd ⊢
+  cases hbk : b.kw with
+  | none => simpa [List.filterMap_cons, hbk] using hd
+  | some k => simp only [List.filterMap_cons, hbk, List.nodup_cons] at hd; exact hd.2
+
+theorem names_eraseIdx_nodup (info : List NewArg) (i : Nat) (h : (names info).Nodup) : (names (info.eraseIdx i)).Nodup := by
+  unfold names at *
+  exact List.Nodup.sublist ((List.eraseIdx_sublist info i).map _) h
+
+/-- **C18 (argument editor, any specification list).** -/
+theorem C18_replaceArgs_sets_all : ∀ (args : List Arg) (info : List NewArg), kwNodup args → (names info).Nodup →
+    ∀ n ∈ info, ∀ a ∈ replaceArgs args info, a.kw = some n.name → a.val = n.value := by
+  intro args
+  induction args with
+  | nil =>
+    intro info _ hn n hnm a ha hk
+    simp only [replaceArgs, List.mem_map, List.mem_filter] at ha
+    obtain ⟨m, ⟨hm, _⟩, rfl⟩ := ha
+    simp only [mkKw, Option.some.injEq] at hk
+    rw [eq_of_name_eq info hn m hm n hnm hk]; rfl
+  | cons b t ih =>
+    intro info hd hn n hnm a ha hk
+    simp only [replaceArgs] at ha
+    cases hmi : matchIdx b info with
+    | none =>
+      simp only [hmi, List.mem_cons] at ha
+      rcases ha with rfl | ha
+      · exact absurd hk ((matchIdx_none_iff _ info).mp hmi n hnm)
+      · exact ih info (kwNodup_tail hd) hn n hnm a ha hk
+    | some i =>
+      simp only [hmi, List.mem_cons] at ha
+      have hi := matchIdx_some b info i hmi
+      have hmem : info.getD i ⟨"", "", false⟩ ∈ info := getD_mem _ info i hi.1
+      rcases ha with rfl | ha
+      · simp only [mkKw, Option.some.injEq] at hk
+        rw [← eq_of_name_eq info hn _ hmem n hnm hk]; rfl
+      · by_cases hne : n ∈ info.eraseIdx i
+        · exact ih _ (kwNodup_tail hd) (names_eraseIdx_nodup info i hn) n hne a ha hk
+        · -- `n` is the specification the head consumed: nothing in the tail carries its keyword
+          exfalso
+          have hni : n = info.getD i ⟨"", "", false⟩ := by
+            rcases mem_eraseIdx_or_eq ⟨"", "", false⟩ info i n hnm with h | h
+            · exact absurd h hne
+            · exact h
+          rcases mem_replaceArgs_origin t _ a ha with h | ⟨m, hm, rfl⟩
+          · -- an argument of the tail with the keyword of the head
+            unfold kwNodup at hd
+            rw [hni] at hk
+            simp only [List.filterMap_cons, hi.2, List.nodup_cons, List.mem_filterMap] at hd
+            exact hd.1 ⟨a, h, hk⟩
+          · simp only [mkKw, Option.some.injEq] at hk
+            have := eq_of_name_eq info hn m (List.mem_of_mem_eraseIdx hm) n hnm hk
+            exact hne (this ▸ hm)
+
+theorem C18_replaceArgs_not_flagged_all (args : List Arg) (info : List NewArg) (bad : String → Bool)
+    (hd : kwNodup args) (hn : (names info).Nodup) (n : NewArg) (hnm : n ∈ info) (hv : bad n.value = false) :
+    flagged n.name bad (replaceArgs args info) = false := by
+  unfold flagged
+  rw [List.any_eq_false]
+  intro a ha
+  by_cases hk : a.kw = some n.name
+  · simp [hk, C18_replaceArgs_sets_all args info hd hn n hnm a ha hk, hv]
+  · simp [hk]
+
+-- non-vacuity: `resp.set_cookie("c", "3", secure=False, httponly=False)` with the three specifications of secure-flask-cookie
+example : replaceArgs [⟨none, .none, "\"c\"", false⟩, ⟨none, .none, "\"3\"", false⟩, ⟨some "secure", .none, "False", false⟩, ⟨some "httponly", .none, "False", false⟩]
+      [⟨"secure", "True", true⟩, ⟨"httponly", "True", true⟩, ⟨"samesite", "'Lax'", true⟩]
+    = [⟨none, .none, "\"c\"", false⟩, ⟨none, .none, "\"3\"", false⟩, ⟨some "secure", .none, "True", false⟩, ⟨some "httponly", .none, "True", false⟩,
+       ⟨some "samesite", .none, "'Lax'", false⟩] := by decide
+
 -- non-vacuity: flagged before, not after
 example : flagged "verify" (· == "False") [⟨none, .none, "url", false⟩, ⟨some "verify", .none, "False", false⟩] = true ∧
     flagged "verify" (· == "False") (replaceArgs [⟨none, .none, "url", false⟩, ⟨some "verify", .none, "False", false⟩] [⟨"verify", "True", true⟩]) = false := by decide
